@@ -128,7 +128,10 @@ PROPS = {
                         "a client does not pipeline behind a closing request whose response exceeds 32 KB (RFC 7230 6.6 reset hazard)",
                         "the nbhttp client is exercised over TLS 1.2 (llib v1.2.4's TLS 1.3 client handshake fails on this toolchain, outside nbio) "
                         "and without HEAD (its response parser does not know the request method)",
-                        "timing: a stalled case is re-run twice before it is reported; content failures are reported at once",
+                        "timing: a stalled case is re-run twice before it is reported; content failures are reported at once; an attempt "
+                        "with a failure during which the executor's environment canary (sleeping goroutine, plain-net loopback echo, "
+                        "/proc/pressure) shows that the process itself did not run for >= 1 s is discarded and re-run when the machine is "
+                        "calm, a case without a calm attempt is skipped and counted (coverage group env), not reported",
                         "echoed inputs of the model (taken from the implementation, not computed): got= (number of responses the nbhttp "
                         "client's parser delivered; the model only insists got <= what the server sent), lost= (pool-client requests whose "
                         "callback got an error), cut= (first response that broke off; accepted only if a closing request at or behind it "
